@@ -87,6 +87,75 @@ __CPROVER_ensures(__CPROVER_return_value == -1 || (UG_OUT_OK(gw) && gw->_numVali
 UG_OUT_HARNESS = '\nvoid h_main(void) { mv_tx_total = 0; const uint8 *e_, *f_; uint32 n_; mv_tx_expect = e_; mv_old_first = f_; mv_old_nv = n_; UMessageGateway *g; uint32 mb; void *a; UGDoOutput(g, mb, mv_send, a); %s }\n' % END
 UG_HARNESS = '\nvoid h_main(void) { mv_rx_total = 0; mv_rx_calls = 0; UMessageGateway *g; uint32 mb; void *a; UMessage *r; UGDoInput(g, mb, mv_recv, a, r); %s }\n' % END
 
+UG_SENDER = r'''
+/* ---- sender side: reserving room for, and then committing, one outgoing Message ---- */
+#ifndef MV_OUTB
+# define MV_OUTB 32      /* bound on the output buffer size (the compaction memmove is symbolic-length) */
+#endif
+/* libc memmove modelled as two byte loops through a temporary (CBMC's array-theory model does not finish here) */
+static void *mv_memmove(void *dst, const void *src, __CPROVER_size_t n)
+{
+   unsigned char tmp[MV_OUTB];
+   __CPROVER_assert(n <= sizeof(tmp), "memmove length within the job's bound");
+   for (__CPROVER_size_t i = 0; i < n && i < sizeof(tmp); i++) tmp[i] = ((const unsigned char *)src)[i];
+   for (__CPROVER_size_t i = 0; i < n && i < sizeof(tmp); i++) ((unsigned char *)dst)[i] = tmp[i];
+   return dst;
+}
+#define memmove mv_memmove
+uint32 mv_old_nv; const uint8 *mv_old_first; uint32 mv_kq; uint8 mv_qb;   /* ghost: queued byte count, first queued byte, byte mv_kq of the queue */
+#define UG_OUT_OK(g) (__CPROVER_same_object((g)->_firstValidOutputByte, (g)->_outputBuffer) && \
+      __CPROVER_POINTER_OFFSET((g)->_firstValidOutputByte) >= 0 && \
+      (__CPROVER_size_t)__CPROVER_POINTER_OFFSET((g)->_firstValidOutputByte) + (g)->_numValidOutputBytes <= (g)->_outputBufferSize)
+#define UG_OUT_PRE(g) (__CPROVER_is_fresh(g, sizeof(UMessageGateway)) && (g)->_outputBufferSize <= MV_OUTB && __CPROVER_is_fresh((g)->_outputBuffer, (g)->_outputBufferSize) && \
+      __CPROVER_pointer_in_range_dfcc((g)->_outputBuffer, (g)->_firstValidOutputByte, (g)->_outputBuffer + (g)->_outputBufferSize) && UG_OUT_OK(g) && \
+      mv_old_nv == (g)->_numValidOutputBytes && mv_old_first == (g)->_firstValidOutputByte && (mv_kq >= mv_old_nv || (g)->_firstValidOutputByte[mv_kq] == mv_qb))
+#define UG_FREE_START(g) ((g)->_firstValidOutputByte + (g)->_numValidOutputBytes)
+#define UG_BUF_END(g) ((g)->_outputBuffer + (g)->_outputBufferSize)
+#define MV_LE4(p) ((uint32)(p)[0] | ((uint32)(p)[1] << 8) | ((uint32)(p)[2] << 16) | ((uint32)(p)[3] << 24))
+/* MicroMessage.c collaborators (assumed: their documented effect on the UMessage handle; the first writes the 12 header bytes) */
+c_status_t UMInitializeToEmptyMessage(UMessage * msg, uint8 * buf, uint32 numBytesInBuf, uint32 whatCode)
+__CPROVER_requires(__CPROVER_w_ok(msg, sizeof(UMessage)) && numBytesInBuf >= 12 && __CPROVER_w_ok(buf, numBytesInBuf))
+__CPROVER_assigns(__CPROVER_object_whole(msg), __CPROVER_object_upto(buf, 12))
+__CPROVER_ensures(msg->_buffer == buf && msg->_bufferSize == numBytesInBuf && msg->_numValidBytes == 12)
+;
+void UMInitializeToInvalid(UMessage * msg)
+__CPROVER_requires(__CPROVER_w_ok(msg, sizeof(UMessage)))
+__CPROVER_assigns(__CPROVER_object_whole(msg))
+__CPROVER_ensures(msg->_buffer == (uint8 *)0 && msg->_bufferSize == 0 && msg->_numValidBytes == 0)
+;
+uint32 UMGetFlattenedSize(const UMessage * msg)
+__CPROVER_requires(__CPROVER_r_ok(msg, sizeof(UMessage)))
+__CPROVER_assigns()
+__CPROVER_ensures(__CPROVER_return_value == msg->_numValidBytes)
+;
+UMessage UGGetOutgoingMessage(UMessageGateway * gw, uint32 whatCode)
+__CPROVER_requires(UG_OUT_PRE(gw))
+__CPROVER_assigns(gw->_firstValidOutputByte, gw->_preparingOutgoingMessage, __CPROVER_object_whole(gw->_outputBuffer))
+/* the queue of bytes not yet sent is untouched (it may have been moved to the front of the buffer) */
+__CPROVER_ensures(UG_OUT_OK(gw) && gw->_numValidOutputBytes == mv_old_nv && (mv_kq >= mv_old_nv || gw->_firstValidOutputByte[mv_kq] == mv_qb))
+/* either no Message, or a Message whose window is the free space behind the queue, after room for the 8-byte frame
+   header, and which ends at the end of the output buffer */
+__CPROVER_ensures(__CPROVER_return_value._buffer == (uint8 *)0 || \
+      (gw->_preparingOutgoingMessage && __CPROVER_return_value._buffer == UG_FREE_START(gw) + 8 && __CPROVER_return_value._bufferSize >= 12 && \
+       __CPROVER_return_value._buffer + __CPROVER_return_value._bufferSize == UG_BUF_END(gw)))
+;
+void UGOutgoingMessagePrepared(UMessageGateway * gw, const UMessage * msg)
+__CPROVER_requires(UG_OUT_PRE(gw) && __CPROVER_is_fresh(msg, sizeof(UMessage)))
+/* the handle is the one UGGetOutgoingMessage() returned, grown by its owner inside its window */
+__CPROVER_requires(gw->_preparingOutgoingMessage && msg->_buffer == UG_FREE_START(gw) + 8 && msg->_buffer + msg->_bufferSize == UG_BUF_END(gw) && \
+      (__CPROVER_size_t)__CPROVER_POINTER_OFFSET(UG_FREE_START(gw)) + 20 <= gw->_outputBufferSize && msg->_numValidBytes >= 12 && msg->_numValidBytes <= msg->_bufferSize)
+__CPROVER_assigns(gw->_numValidOutputBytes, gw->_preparingOutgoingMessage, __CPROVER_object_whole(gw->_outputBuffer))
+/* the frame goes out as [size][encoding 'Enc0'][body], appended to the queue; earlier queued bytes are untouched */
+__CPROVER_ensures(UG_OUT_OK(gw) && gw->_firstValidOutputByte == mv_old_first && gw->_numValidOutputBytes == mv_old_nv + 8 + msg->_numValidBytes && !gw->_preparingOutgoingMessage)
+/* (dereferenced through the gateway's own pointer: a ghost pointer that is only pinned by == has no value set in CBMC) */
+__CPROVER_ensures(MV_LE4(gw->_firstValidOutputByte + mv_old_nv) == msg->_numValidBytes && MV_LE4(gw->_firstValidOutputByte + mv_old_nv + 4) == 1164862256u)
+__CPROVER_ensures(mv_kq >= mv_old_nv || gw->_firstValidOutputByte[mv_kq] == mv_qb)
+;
+'''
+UG_GH = 'const uint8 *f_; uint32 n_, k_; uint8 b_; mv_old_first = f_; mv_old_nv = n_; mv_kq = k_; mv_qb = b_;'
+UG_GETOUT_HARNESS = '\nvoid h_main(void) { %s UMessageGateway *g; uint32 w; UMessage m = UGGetOutgoingMessage(g, w); %s }\n' % (UG_GH, END)
+UG_PREPARED_HARNESS = '\nvoid h_main(void) { %s UMessageGateway *g; UMessage *m; UGOutgoingMessagePrepared(g, m); %s }\n' % (UG_GH, END)
+
 MG_PRE = r'''
 #include <string.h>
 #include <stdlib.h>
@@ -169,6 +238,14 @@ def jobs(tier):
     J.append(Job('ug_UGDoOutput', '#define MV_MAXB %d\n' % maxb + UG_PRE + UG_OUT + ug + UG_OUT_HARNESS, 'h_main', enforce=['UGDoOutput'], loops=False, unwind=maxb + 2,
                  klass='bounded', bound='maxBytes <= %d per call (any buffer, any queued byte count, any transport behaviour); loop unwound with unwinding assertions' % maxb,
                  functions=[(UG_C, 'UGDoOutput')], timeout=900, split=0))
+    outb = 24 if tier == 'quick' else 40
+    pre_send = '#define MV_OUTB %d\n' % outb + '#include <string.h>\n#include "lang/c/micromessage/MicroMessageGateway.h"\n' + UG_SENDER
+    J.append(Job('ug_UGGetOutgoingMessage', pre_send + ug + UG_GETOUT_HARNESS, 'h_main', enforce=['UGGetOutgoingMessage'], replace=['UMInitializeToEmptyMessage', 'UMInitializeToInvalid'],
+                 loops=False, unwind=outb + 2, klass='bounded', bound='output buffer of at most %d bytes (any queue position and length, any content)' % outb,
+                 functions=[(UG_C, 'UGGetOutgoingMessage'), (UG_C, 'UGGetAvailableBytesCount')], timeout=900, split=0))
+    J.append(Job('ug_UGOutgoingMessagePrepared', pre_send + ug + UG_PREPARED_HARNESS, 'h_main', enforce=['UGOutgoingMessagePrepared'], replace=['UMGetFlattenedSize'],
+                 loops=False, unwind=outb + 2, klass='bounded', bound='output buffer of at most %d bytes (any queue position and length, any content, any Message size that fits)' % outb,
+                 functions=[(UG_C, 'UGOutgoingMessagePrepared'), (UG_C, 'UMWriteInt32')], timeout=900, split=0))
     if not os.environ.get('MV_SLOW'):
         return J   # MGDoInput: contract written below; cbmc needs > 60 GB already for maxBytes <= 3 (DESIGN change log)
     mg = inject(os.path.join(REPO, MG_C), [], [])
@@ -187,8 +264,9 @@ META = dict(
     assumptions=['the transport callback is modelled by mv_recv: returns -1, 0 (would block) or any count up to the request and writes only the bytes it reports',
                  'MiniMessage.c collaborators (MBAllocByteBuffer, MBFreeByteBuffer, MMAllocMessage, MMFreeMessage, MMUnflattenMessage) are opaque with the assumed contracts in props/c03.py',
                  'segmentation independence follows from the cursor contract by the additivity argument of DESIGN 5.C03 (on paper)', 'single thread'],
-    assumed_contracts=['memcpy (MGDoInput job)', 'UMInitializeToInvalid', 'MBAllocByteBuffer', 'MBFreeByteBuffer', 'MMAllocMessage', 'MMFreeMessage', 'MMUnflattenMessage'],
-    not_lowered=['MessageIOGateway and every other C++ gateway, zlib encodings, templating, WebSocket, PlainText, SLIP', 'UGDoOutput / MGDoOutput'],
+    assumed_contracts=['memcpy (MGDoInput job)', 'memmove as a two-loop byte model (sender jobs)', 'UMInitializeToInvalid', 'UMInitializeToEmptyMessage', 'UMGetFlattenedSize', 'MBAllocByteBuffer', 'MBFreeByteBuffer', 'MMAllocMessage', 'MMFreeMessage', 'MMUnflattenMessage'],
+    not_lowered=['MessageIOGateway and every other C++ gateway, zlib encodings, templating, WebSocket, PlainText, SLIP', 'MGDoInput (contract written, > 60 GB) / MGDoOutput'],
     explanation='UGDoInput and MGDoInput are enforced against a cursor contract: every receive window lies inside the current input buffer, the return value equals the bytes the transport delivered, '
-                'a body length is accepted only if it fits, a Message is surfaced exactly at a body end and the cursor then returns to the frame header. Bounded by maxBytes per call.',
+                'a body length is accepted only if it fits, a Message is surfaced exactly at a body end and the cursor then returns to the frame header. UGDoOutput hands the transport the queued bytes once each, in order. '
+                'UGGetOutgoingMessage / UGOutgoingMessagePrepared: the queue of unsent bytes survives the compaction, the new Message window is the free space behind it, the committed frame is [size][Enc0][body]. Bounded by maxBytes per call / output buffer size.',
 )
